@@ -366,6 +366,9 @@ func pubsubHarness(rc *RunCtx) {
 			// while the publisher keeps going (order and count must survive overflow paths)
 			nPre = 66 + tp.Intn("burst", rc.Scale(80, 300))
 			rc.Fault("publish-burst-over-slow-handler")
+			if sb != nil {
+				sb.Prefetch = 1 // the backlog waits at the broker, as with a prefetch-limited subscription
+			}
 		}
 		nInflight := tp.Intn("ops", rc.Scale(3, 8))
 		nPost := 1 + tp.Intn("ops", 3)
